@@ -20,7 +20,7 @@ func init() {
 		Rules: []RuleDef{
 			{ID: "C11.R1", Min: 8, Doc: "bypass and loop freedom: forbidden effects (ValidatePacket, validate.Ordered, RW.Do, AddMaybe, reads of snapshot fields blacklist/rewriters/aggregators, sends on Aggregator.in or Table.In) are unreachable from table.DispatchAggregate over call+defer+go edges", Run: c11r1},
 			{ID: "C11.R2", Min: 5, Doc: "wiring: send sites on Aggregator.out ⊆ Flush; every aggregator.New call passes Table.In (GetIn()/field In) as out; receive sites on Table.In = the table.New goroutine, whose loop body calls DispatchAggregate with the received value", Run: c11r2},
-			{ID: "C11.R4", Min: 20, Doc: "aggregate routing and consumption use the real filters: DispatchAggregate fans out like Dispatch and evaluates route filters on the NAME prefix of the aggregate line; what an aggregation consumes is decided by PreMatch and MatchRegexAndExpand, which together compute the documented conjunction (rules C01.R1, C03.R1, C03.R2 and C03.R3 evaluated for this property as well)", Run: func(c *Check) { c01r1(c); c03r1(c); c03r2(c); c03r3(c) }},
+			{ID: "C11.R4", Min: 20, Doc: "aggregate routing and consumption use the real filters: DispatchAggregate fans out like Dispatch and evaluates route filters on the NAME prefix of the aggregate line; what an aggregation consumes is decided by PreMatch and MatchRegexAndExpand, which together compute the documented conjunction ; the match cache is transparent — keyed by the name itself, entries are the filter's own verdict (rules C01.R1, C03.R1, C03.R2, C03.R3 and C03.R4 evaluated for this property as well)", Run: func(c *Check) { c01r1(c); c03r1(c); c03r2(c); c03r3(c); c03r4(c) }},
 			{ID: "C11.R3", Min: 3, Doc: "drop-raw exactness: path enumeration of AddMaybe with DropRaw as a path-consistent boolean; matchWithCache's cache-hit return value is the entry's match field; the Dispatcher returns right after AddMaybe == true", Run: c11r3},
 		},
 	})
